@@ -62,7 +62,7 @@ func c16Names(thorough bool) []string {
 
 func C16(r *ck.Run) {
 	requireInstrumented()
-	r.Rule("(a) every string of length <= 4 over {a,z,A,0,9,'.','-','_'} plus boundary lengths and shaped names through IsValidBucketName and (stride) through PUT /name, against the S3 naming predicate; (b) CreateBucket on every existing-bucket state (written to, or configured but never written to) × creator × headers, and ListBuckets over every population of <= 4 buckets of 3 owners × prefix × max-buckets × token walk for user and admin callers; (c) ACL documents (one grantee in several grants) read back before and after a restart, and breadth-first search over put/get/delete of every bucket setting (tags, policy, ACL, ownership controls, versioning, lock configuration) with restarts, read back after every step, and DeleteBucket on every non-empty state; (d) every interleaving with bounded preemptions of DeleteBucket against PutObject / nested PutObject / CreateMultipartUpload / UploadPart / CompleteMultipartUpload / CreateBucket / PutBucketTagging on real posix backends; distinct = distinct name / population+query / state / schedule")
+	r.Rule("(a) every string of length <= 4 over {a,z,A,0,9,'.','-','_'} plus boundary lengths and shaped names through IsValidBucketName and (stride) through PUT /name, against the S3 naming predicate; (b) CreateBucket on every existing-bucket state (written to, or configured but never written to) × creator × headers, and ListBuckets over every population of <= 4 buckets of 3 owners × prefix × max-buckets × token walk for user and admin callers; (c) ACL documents (one grantee in several grants, the owner's own grant, written back as read) read back before and after a restart, a deleted bucket re-created under another owner on every metadata store (no setting survives), DELETE / PUT with every bucket sub-resource the gateway does not implement (bucket and settings stay), and breadth-first search over put/get/delete of every bucket setting (tags, policy, ACL, ownership controls, versioning, lock configuration) with restarts, read back after every step, and DeleteBucket on every non-empty state; (d) every interleaving with bounded preemptions of DeleteBucket against PutObject / nested PutObject / CreateMultipartUpload / UploadPart / CompleteMultipartUpload / CreateBucket / PutBucketTagging on real posix backends; distinct = distinct name / population+query / state / schedule")
 	r.Assume("reserved bucket-name prefixes and suffixes (xn--, -s3alias, ...) may be accepted or refused; single syscalls are atomic; (d) runs at the backend seam (the ACL lookup of the HTTP layer is not part of the interleaving)")
 	names := c16Names(r.Thorough())
 	r.Sharded(16, func() {
@@ -86,6 +86,8 @@ func C16(r *ck.Run) {
 			c16HTTPNames(r, names)
 			c16CreateExisting(r)
 			c16ACLs(r)
+			c16Recreate(r)
+			c16ForeignSubresources(r)
 		}
 		c16ListBuckets(r)
 		c16Settings(r)
@@ -334,6 +336,9 @@ func c16ACLs(r *ck.Run) {
 		{{"usr2", "FULL_CONTROL"}, {"usr3", "READ_ACP"}},
 		{{"usr3", "WRITE"}, {"usr3", "WRITE_ACP"}, {"usr3", "READ"}, {"usr3", "READ_ACP"}},
 		{},
+		// the owner's own grant written explicitly, as every GetBucketAcl answer carries it
+		{{"usr1", "FULL_CONTROL"}, {"usr3", "READ"}},
+		{{"usr1", "FULL_CONTROL"}},
 	}
 	for mi, m := range menus {
 		var x strings.Builder
@@ -341,6 +346,9 @@ func c16ACLs(r *ck.Run) {
 		want := map[string]int{}
 		for _, e := range m {
 			fmt.Fprintf(&x, `<Grant><Grantee xmlns:xsi="http://www.w3.org/2001/XMLSchema-instance" xsi:type="CanonicalUser"><ID>%s</ID></Grantee><Permission>%s</Permission></Grant>`, e.ID, e.Perm)
+			if e.ID == "usr1" && e.Perm == "FULL_CONTROL" {
+				continue // the owner's grant: listed once or not at all, see below
+			}
 			want[e.ID+":"+e.Perm]++
 		}
 		x.WriteString(`</AccessControlList></AccessControlPolicy>`)
@@ -359,19 +367,130 @@ func c16ACLs(r *ck.Run) {
 			r.Add("evaluations", 1)
 			have := map[string]int{}
 			body := string(got.Body)
+			ownerGrants := 0
 			for _, gr := range strings.Split(body, "<Grant>")[1:] {
 				id, perm := xmlFieldS([]byte(gr), "ID"), xmlFieldS([]byte(gr), "Permission")
 				if id == "usr1" && perm == "FULL_CONTROL" {
-					continue // the owner's own grant may be listed
+					ownerGrants++ // the owner's own grant may be listed, once
+					continue
 				}
 				have[id+":"+perm]++
 			}
 			if !got.OK() || fmt.Sprint(have) != fmt.Sprint(want) {
 				r.Violation(ck.JoinSig("acl", "read-back-differs-from-what-was-written", phase), map[string]any{"written": x.String(), "expected_grants": fmt.Sprint(want), "read_back_grants": fmt.Sprint(have), "response": got.String()})
 			}
+			if ownerGrants > 1 {
+				r.Violation(ck.JoinSig("acl", "owner-grant-listed-more-than-once", phase), map[string]any{"written": x.String(), "owner_grants": ownerGrants, "response": got.String()})
+			}
+			if phase == "no-restart" && got.OK() {
+				// read-modify-write without a modification: writing back what was read changes nothing
+				for cycle := 1; cycle <= 2; cycle++ {
+					doc := body
+					if i := strings.Index(doc, "<AccessControlPolicy"); i > 0 {
+						doc = doc[i:]
+					}
+					pb := w.F.Do(gw.Root, "PUT", "/"+w.Bucket, "acl", nil, []byte(doc))
+					again := w.F.Do(gw.Root, "GET", "/"+w.Bucket, "acl", nil, nil)
+					r.Add("evaluations", 1)
+					if !pb.OK() {
+						r.Violation(ck.JoinSig("acl", "document-read-from-the-gateway-refused-when-written-back", fmtResp(pb)), map[string]any{"document": doc, "response": pb.String()})
+						break
+					}
+					if string(again.Body) != body {
+						r.Violation(ck.JoinSig("acl", "writing-back-what-was-read-changes-the-acl"), map[string]any{"cycle": cycle, "read": body, "read_after_writing_it_back": string(again.Body)})
+						break
+					}
+				}
+			}
 		}
 	}
 	r.Outcome("acl-documents-done")
+}
+
+// usersFor creates the fixture's accounts on a bare gateway.
+func usersFor(f *Fx) {
+	for _, u := range []struct {
+		c    gw.Creds
+		role string
+	}{{cAdm, "admin"}, {cUp, "userplus"}, {cUsr1, "user"}, {cUsr2, "user"}, {cUsr3, "user"}} {
+		Must(f.Do(gw.Root, "PATCH", "/create-user", "", nil, xmlUser(u.c, u.role, 0, 0)), "create "+u.c.Access)
+	}
+}
+
+// c16Recreate: a bucket that is deleted takes its settings with it, on every metadata store: a new bucket of the same
+// name (another owner, with and without a restart in between) shows none of them.
+func c16Recreate(r *ck.Run) {
+	for _, cfg := range []gw.Opts{{Versioning: true}, {Sidecar: true, Versioning: true}, {Sidecar: true}} {
+		for _, restart := range []bool{false, true} {
+			f := NewFx("c16r", cfg)
+			usersFor(f)
+			Must(f.CreateBucket(gw.Root, "reb", "x-amz-bucket-object-lock-enabled", "true", "x-amz-object-ownership", "BucketOwnerPreferred"), "create")
+			Must(f.Do(gw.Root, "PATCH", "/change-bucket-owner", gw.Q("bucket", "reb", "owner", "usr1"), nil, nil), "chown")
+			written := map[string]string{
+				"tagging":           "<Tagging><TagSet><Tag><Key>owner</Key><Value>first</Value></Tag></TagSet></Tagging>",
+				"policy":            `{"Statement":[{"Effect":"Allow","Principal":"usr3","Action":"s3:*","Resource":["arn:aws:s3:::reb","arn:aws:s3:::reb/*"]}]}`,
+				"object-lock":       "<ObjectLockConfiguration><ObjectLockEnabled>Enabled</ObjectLockEnabled><Rule><DefaultRetention><Mode>COMPLIANCE</Mode><Days>30</Days></DefaultRetention></Rule></ObjectLockConfiguration>",
+				"cors":              "<CORSConfiguration><CORSRule><AllowedOrigin>http://first.example</AllowedOrigin><AllowedMethod>GET</AllowedMethod></CORSRule></CORSConfiguration>",
+			}
+			for _, q := range []string{"tagging", "policy", "object-lock", "cors"} {
+				if resp := f.Do(gw.Root, "PUT", "/reb", q, nil, []byte(written[q])); !resp.OK() && q != "cors" {
+					ck.Fatal("c16 recreate: put %s: %s", q, resp)
+				}
+			}
+			Must(f.Do(gw.Root, "PUT", "/reb", "acl", H("x-amz-grant-read", "usr3"), nil), "put acl")
+			Must(f.Do(gw.Root, "DELETE", "/reb", "", nil, nil), "delete bucket")
+			if restart {
+				f.Restart()
+			}
+			Must(f.CreateBucket(gw.Root, "reb"), "create again")
+			Must(f.Do(gw.Root, "PATCH", "/change-bucket-owner", gw.Q("bucket", "reb", "owner", "usr2"), nil, nil), "chown again")
+			r.Distinct(fmt.Sprintf("recreate|%v|%v|%v", cfg.Sidecar, cfg.Versioning, restart))
+			store := "xattr"
+			if cfg.Sidecar {
+				store = "sidecar"
+			}
+			for _, probe := range []struct{ q, marker string }{{"tagging", "first"}, {"policy", "usr3"}, {"object-lock", "COMPLIANCE"}, {"cors", "first.example"}, {"versioning", "<Status>"}, {"acl", "usr3"}, {"acl", "usr1"}, {"ownershipControls", "BucketOwnerPreferred"}} {
+				resp := f.Do(gw.Root, "GET", "/reb", probe.q, nil, nil)
+				r.Add("evaluations", 1)
+				if resp.OK() && strings.Contains(string(resp.Body), probe.marker) {
+					r.Violation(ck.JoinSig("recreate", store, "new-bucket-shows-a-setting-of-the-deleted-bucket", probe.q), map[string]any{"config": fmt.Sprintf("%+v", cfg), "restart_between": restart, "setting": probe.q, "response": resp.String()})
+				}
+			}
+			// and what the old policy / ACL granted is gone with them
+			if resp := f.Do(cUsr3, "GET", "/reb", "", nil, nil); resp.OK() {
+				r.Violation(ck.JoinSig("recreate", store, "grant-of-the-deleted-bucket-still-decides"), map[string]any{"config": fmt.Sprintf("%+v", cfg), "restart_between": restart, "response": resp.String()})
+			}
+			f.Close()
+		}
+	}
+	r.Outcome("recreate-done")
+}
+
+// c16ForeignSubresources: a DELETE (or PUT) that names a bucket sub-resource the gateway does not implement must
+// not be taken for DeleteBucket (CreateBucket): the bucket and its settings stay as they are.
+func c16ForeignSubresources(r *ck.Run) {
+	f := NewFx("c16u", gw.Opts{})
+	defer f.Close()
+	usersFor(f)
+	tag := "<Tagging><TagSet><Tag><Key>keep</Key><Value>me</Value></Tag></TagSet></Tagging>"
+	for _, sub := range []string{"lifecycle", "encryption", "website", "replication", "publicAccessBlock", "analytics&id=a", "metrics&id=m", "inventory&id=i", "intelligent-tiering&id=t", "accelerate", "logging", "notification", "requestPayment", "acl", "versioning", "object-lock", "policyStatus", "location", "uploads", "versions", "delete", "x-id=DeleteBucketLifecycle&lifecycle"} {
+		for _, method := range []string{"DELETE", "PUT"} {
+			Must(f.CreateBucket(gw.Root, "subb"), "create")
+			Must(f.Do(gw.Root, "PATCH", "/change-bucket-owner", gw.Q("bucket", "subb", "owner", "usr1"), nil, nil), "chown")
+			Must(f.Do(cUsr1, "PUT", "/subb", "tagging", nil, []byte(tag)), "tag")
+			resp := f.Do(cUsr1, method, "/subb", sub, nil, nil)
+			r.Add("evaluations", 1)
+			r.Distinct("foreign-subresource|" + method + "|" + sub)
+			r.Outcome(fmt.Sprintf("foreign-subresource:%s:%d", method, resp.Status))
+			after := f.Do(cUsr1, "GET", "/subb", "tagging", nil, nil)
+			acl := f.Do(gw.Root, "GET", "/subb", "acl", nil, nil)
+			if !after.OK() || !strings.Contains(string(after.Body), "<Key>keep</Key>") || !strings.Contains(string(acl.Body), "usr1") {
+				r.Violation(ck.JoinSig("foreign-subresource", method, strings.SplitN(strings.TrimPrefix(sub, "x-id=DeleteBucketLifecycle&"), "&", 2)[0], "bucket-or-settings-gone", fmt.Sprintf("answered-%d", resp.Status)),
+					map[string]any{"request": method + " /subb?" + sub, "response": resp.String(), "tagging_after": after.String(), "acl_after": acl.String()})
+			}
+			f.Do(gw.Root, "DELETE", "/subb", "", nil, nil)
+		}
+	}
 }
 
 // (c) bucket settings: BFS over put/get/delete with restarts
